@@ -63,6 +63,8 @@ pub struct Script {
     pub accept_slots: BTreeMap<usize, oneshot::Sender<AcceptDecision>>,
     /// ids for which the `accept()` call itself returns `Err`
     pub fail_accept_call: Vec<usize>,
+    /// ids for which `negotiate()` returns `Err` (the opened socket is gone)
+    pub fail_negotiate: Vec<usize>,
     /// protocol sets of connections whose accept future completed (the connection "task" owns them)
     pub connections: BTreeMap<usize, (PeerId, ProtocolSet)>,
     pub events_emitted: u64,
@@ -88,6 +90,7 @@ impl ScriptHandle {
             handle: None,
             accept_slots: BTreeMap::new(),
             fail_accept_call: Vec::new(),
+            fail_negotiate: Vec::new(),
             connections: BTreeMap::new(),
             events_emitted: 0,
             pending_io: BTreeMap::new(),
@@ -250,6 +253,9 @@ impl Transport for ScriptedTransport {
 
     fn negotiate(&mut self, connection_id: ConnectionId) -> litep2p::Result<()> {
         self.record(Call::Negotiate { id: connection_id.verif_raw() });
+        if self.0 .0.lock().fail_negotiate.contains(&connection_id.verif_raw()) {
+            return Err(litep2p::Error::ConnectionDoesntExist(connection_id));
+        }
         Ok(())
     }
 
